@@ -795,8 +795,8 @@ macro_rules! impl_range_ints(
                 fn view_bounds(self, size: usize) -> Option<(usize, usize)> {
                     range_bounds(
                         Range {
-                            start: self.start as i64,
-                            end: self.end as i64,
+                            start: self.start as i128,
+                            end: self.end as i128,
                         },
                         size,
                     )
@@ -805,27 +805,27 @@ macro_rules! impl_range_ints(
 
             impl ViewBounds for RangeFrom<$int_type> {
                 fn view_bounds(self, size: usize) -> Option<(usize, usize)> {
-                    range_bounds(RangeFrom { start: self.start as i64 }, size)
+                    range_bounds(RangeFrom { start: self.start as i128 }, size)
                 }
             }
 
             impl ViewBounds for RangeTo<$int_type> {
                 fn view_bounds(self, size: usize) -> Option<(usize, usize)> {
-                    range_bounds(RangeTo { end: self.end as i64 }, size)
+                    range_bounds(RangeTo { end: self.end as i128 }, size)
                 }
             }
 
             impl ViewBounds for RangeInclusive<$int_type> {
                 fn view_bounds(self, size: usize) -> Option<(usize, usize)> {
-                    let start = *self.start() as i64;
-                    let end = *self.end() as i64;
+                    let start = *self.start() as i128;
+                    let end = *self.end() as i128;
                     range_bounds(start..=end, size)
                 }
             }
 
             impl ViewBounds for RangeToInclusive<$int_type> {
                 fn view_bounds(self, size: usize) -> Option<(usize, usize)> {
-                    let end = self.end as i64;
+                    let end = self.end as i128;
                     range_bounds(..=end, size)
                 }
             }
@@ -834,30 +834,25 @@ macro_rules! impl_range_ints(
 );
 impl_range_ints!(u8, i8, u16, i16, u32, i32, u64, i64, usize, isize);
 
-fn range_bounds(bound: impl RangeBounds<i64>, size: usize) -> Option<(usize, usize)> {
-    //  (index + size) % size - almost works
-    //  0  1  2  3  4  5  6  7  8  9  0  1  2  3  4  5  6  7  8  9
-    //-10 -9 -8 -7 -6 -5 -4 -3 -2 -1  0  1  2  3  4  5  6  7  8  9
-    let size = size as i64;
-    if size == 0 {
-        return None;
-    }
-
-    let (start, offset) = match bound.start_bound() {
-        Bound::Unbounded => (0, 0),
-        Bound::Included(start) => (*start, 0),
-        Bound::Excluded(start) => (*start, 1),
+fn range_bounds(bound: impl RangeBounds<i128>, size: usize) -> Option<(usize, usize)> {
+    // python style index resolution: negative indices count from the end,
+    // result is clamped to `0..=size`. Done in i128 so nothing can overflow.
+    let size = size as i128;
+    let resolve = |index: i128, offset: i128| -> i128 {
+        let index = if index < 0 { index + size } else { index };
+        clamp(index + offset, 0, size)
     };
-    let offset = if start >= size { 1 } else { offset };
-    let start = clamp(start + size, 0, 2 * size - 1) % size + offset;
 
-    let (end, offset) = match bound.end_bound() {
-        Bound::Unbounded => (-1, 1),
-        Bound::Included(end) => (*end, 1),
-        Bound::Excluded(end) => (*end, 0),
+    let start = match bound.start_bound() {
+        Bound::Unbounded => 0,
+        Bound::Included(start) => resolve(*start, 0),
+        Bound::Excluded(start) => resolve(*start, 1),
     };
-    let offset = if end >= size { 1 } else { offset };
-    let end = clamp(end + size, 0, 2 * size - 1) % size + offset;
+    let end = match bound.end_bound() {
+        Bound::Unbounded => size,
+        Bound::Included(end) => resolve(*end, 1),
+        Bound::Excluded(end) => resolve(*end, 0),
+    };
 
     if end <= start {
         None
